@@ -21,6 +21,11 @@ CLAIMS = {
         text="Unbounded proof (any input length) that the four hand-written decoders cannot reach a panic, only reserve memory bounded by a constant or by the bytes left in the reader, and only build Text from validated UTF-8; full-domain proof that num_bytes_needed_i64 is the extension's minimal big-endian width; unbounded proof that unpack_columns is total and returns exactly what the documented packed-key format decodes to (zero-extended integers/lengths) and that pack_columns emits exactly that format for up to 255 columns. A machine-checked lemma composes the two contracts: decoding the encoding of any column list (<= 255 columns) gives back exactly that list. Derived (speedy-derive) codecs, frame-size limits and peak RSS are not decided.",
         note="Assumed: speedy Reader and primitive/derived Readable impls are total and consume their minimum size; generic reader/error types replaced by concrete stand-ins; `bytes` crate as compiled by Kani.",
     ),
+    "C15": dict(
+        technique="Verus contracts on three anchored fragments of the real apply_schema (table-drop guard, per-table column/primary-key rules, new-column rules with a ghost DDL log) + structural obligations on apply_schema's statement texts and on execute_schema's transaction/commit/assignment order; replay on an in-memory cr-sqlite database",
+        text="Proof, for all pairs of current/new schemas (any tables, columns, definitions, key orders), of the additive rules the property lists: apply_schema returns Ok only if every existing table is still present, every existing column of a table present in both is present and unchanged, and the primary key is the same column sequence; a new column that is a primary key, or NOT NULL without a default, is rejected before any DDL, otherwise exactly one ALTER TABLE … ADD COLUMN runs. Structural: the only DROP TABLE / RENAME texts sit in a branch closed by the changed-columns guard; execute_schema builds the candidate by inserting into a clone, constrains it before any SQL, applies inside one immediate transaction committed with `?`, and replaces the in-memory schema only after that succeeded, under the schema write lock. Not decided: what SQLite/cr-sqlite do with the DDL (rows kept, rollback), idempotence of the index part, Schema::constrain's own rules, restart (init_schema re-reads __corro_schema).",
+        note="Assumed: the HashSet-difference idiom and filter_map/collect are replaced by set-valued stand-ins keeping the real closure; derived PartialEq on Column is field-wise; names are a stand-in text type; SQL AST payloads opaque.",
+    ),
     "C14": dict(
         technique="Verus contracts on anchored fragments of the real update feed (cl-cache filter/buffering of one candidate, cache trim, delete/update parity)",
         text="Proof for all keys/causal lengths/cache contents that a candidate is dropped exactly when a strictly newer causal length of the same key was already let through, that otherwise the pending notification and the cache carry this latest causal length, that trimming keeps the most recent 1000 keys, and that a notification says Delete iff the causal length is even. Monotonicity is conditional on the key not having been evicted from the bounded cache. 'Every changed key is notified' is not decided.",
@@ -85,7 +90,6 @@ NOT_APPLICABLE = {
     "C06": "quantifies over crash points and SQLite WAL durability; not a pre/postcondition of any Rust function",
     "C11": "incremental view maintenance is generated SQL over arbitrary user SELECTs, executed by SQLite; no Verus/Kani contract can state equality with re-evaluation",
     "C13": "depends on process stop points and sub-database contents; only a string guard is contract-shaped",
-    "C15": "additivity decided over sqlite3_parser ASTs + DDL executed by SQLite; atomicity is the SQLite transaction",
     "C19": "behaviour is SQL (VACUUM INTO, ordinal rewrites) + file locking across processes",
     "C20": "tokio concurrency (exclusion, priority, deadlock freedom); outside Kani (no threads) and Verus (needs its own sync primitives)",
     # not yet built — removed from this list as each check lands
